@@ -321,10 +321,10 @@ def covered(rs, c, r, sheet):
 
 
 # ------------------------------------------------------------------------------------ __add__  (':' operator)
-c_add = Contract('formulas.ranges:Ranges.__add__', dict(self=RangesT(1, 2), other=RangesT(1, 2)), 'C06',
+c_add = Contract('formulas.ranges:Ranges.__add__', dict(self=RangesT(1, 2, 3), other=RangesT(1, 2, 3)), 'C06',
                  name='Ranges.__add__', use=['range2parts[FR]'])
 CONTRACTS.append(c_add)
-c_add.bound = 'operands with 1..2 areas each'
+c_add.bound = 'operands with 1..3 areas each'
 
 
 @c_add.requires
@@ -373,7 +373,7 @@ def _(self, other, result):
 
 
 # ------------------------------------------------------------------------------------ __or__ (',' operator)
-c_or = Contract('formulas.ranges:Ranges.__or__', dict(self=RangesT(0, 1, 2), other=RangesT(0, 1, 2)), 'C06',
+c_or = Contract('formulas.ranges:Ranges.__or__', dict(self=RangesT(0, 1, 2, 3), other=RangesT(0, 1, 2, 3)), 'C06',
                 name='Ranges.__or__')
 CONTRACTS.append(c_or)
 
